@@ -433,6 +433,36 @@ def c04_scenario(seed, k):
             "flags": [op[2] for op in sc if op[0] == "flag"]}
 
 
+def c04_fixed():
+    """hand-picked texts (run once per check, by the shard whose seed is a multiple of 100)"""
+    L = lambda cs, t: ["lit", cs, t]  # noqa: E731
+    out = []
+
+    def case(name, text, rules, route="load_strict_crlf"):
+        sc = [["load", 100, 1, text]] if route != "create" else [["create", 100, t] for t in text]
+        out.append({"seed": 0, "index": name, "route": route, "layout": False, "scenario": sc, "parents": {}, "flags": [],
+                    "rules": [{"name": n, "def": d} for n, d in rules]})
+
+    # the SAME digit string under different radix markers in one text (and in one rule), series and ranges included
+    case("same-digits-other-radix",
+         "n1 = %d65 %x65 %b1000001\r\nn2 = %x10 %d10 %b10\r\nn3 = %d30-39 / %x30-39\r\nn4 = %x41.42 %d41.42 %x41.42\r\nn5 = %b11 %d11 %x11 %b11\r\n",
+         [("n1", ["cat", [L(1, "A"), L(1, "e"), L(1, "A")]]), ("n2", ["cat", [L(1, "\x10"), L(1, "\n"), L(1, "\x02")]]),
+          ("n3", ["alt", 0, [["range", 30, 39], ["range", 0x30, 0x39]]]), ("n4", ["cat", [L(1, "AB"), L(1, ")*"), L(1, "AB")]]),
+          ("n5", ["cat", [L(1, "\x03"), L(1, "\x0b"), L(1, "\x11"), L(1, "\x03")]])])
+    case("same-digits-other-radix-create",
+         ["m1 = %x65 %d65", "m2 = %d65 %x65", "m3 = %x7a-7A", ],
+         [("m1", ["cat", [L(1, "e"), L(1, "A")]]), ("m2", ["cat", [L(1, "A"), L(1, "e")]]), ("m3", ["range", 0x7a, 0x7a])], route="create")
+    # digit and marker case, leading zeros
+    case("digit-case-leading-zeros", "h = %x6a %X6A %x006a %x0A.0a.00a %D048 %B00110000\r\n",
+         [("h", ["cat", [L(1, "j"), L(1, "j"), L(1, "j"), L(1, "\n\n\n"), L(1, "0"), L(1, "0")]])])
+    # nested groups inside an alternation stay nested; =/ twice nests twice
+    case("nested-groups-and-incremental",
+         'g = "a" / ( "b" / "c" ) / "d"\r\ne = "a"\r\ne =/ "b"\r\ne =/ "c" / "d"\r\n',
+         [("g", ["alt", 0, [L(0, "a"), ["alt", 0, [L(0, "b"), L(0, "c")]], L(0, "d")]]),
+          ("e", ["alt", 0, [["alt", 0, [L(0, "a"), L(0, "b")]], ["alt", 0, [L(0, "c"), L(0, "d")]]]])])
+    return out
+
+
 def run_c04(cases):
     mism = []
     stats = {"routes": {}, "layout": 0, "rules": 0, "accepted": 0}
@@ -719,7 +749,7 @@ def main():
     a = ap.parse_args()
     t0 = time.time()
     if a.mode == "c04":
-        cases = [c04_scenario(a.seed, k) for k in range(a.n)]
+        cases = (c04_fixed() if a.seed % 100 == 0 else []) + [c04_scenario(a.seed, k) for k in range(a.n)]
         mism, stats = run_c04(cases)
         samples = [{"route": c["route"], "scenario": c["scenario"], "intended": c["rules"]} for c in cases[:3]]
         viol = [{"what": m["problems"][0]["what"], "identity": "c04:" + json.dumps(m["case"]["scenario"])[:300],
